@@ -349,6 +349,7 @@ static void epilogue()
 	static const int shapes[] = {1, 2, 4, 5, 6};
 	for(int s : shapes) invoke(s);
 #if W_KIND == 2
+	process(3, 6);      // a generic predicate looks at whatever is still queued for the prototypes it is callable with (whatever type went into the slots)
 	process(2, 0);
 	process(1, 0);
 	process(1, 0);
